@@ -290,6 +290,58 @@ theorem scan_hdr_len {bnd : BoundFn} {d : Dest} {raw : Bytes} (h : scan bnd d ra
   · injection h with h; contradiction
   · omega
 
+theorem decode_size_le_aux {bs : Bytes} {g : G} {s : Nat} (h : decode bs = .ok (g, s)) :
+    16 * pointCount g ≤ bs.length := by
+  unfold decode at h
+  split at h
+  · rename_i hd
+    injection h with h; injection h with h _; subst h
+    have := decodeStream_size hd
+    omega
+  all_goals contradiction
+
+/-! ### the caller's buffer after an in-place hex decode keeps its length -/
+
+theorem scanBuf_step2_len (p : Bytes × Bytes) (n : Nat) (h1 : p.1.length ≤ n) (h2 : p.2.length = n) :
+    (if p.1.head? = some 48 ∧ ((p.1.drop 1).head? = some 48 ∨ (p.1.drop 1).head? = some 49) then
+      (match hexDecode p.1 with
+       | some d2 => d2 ++ p.2.drop d2.length
+       | none => p.2)
+     else p.2).length = n := by
+  split
+  · split
+    · rename_i d2 hd
+      have := hexDecode_len _ _ hd
+      simp only [List.length_append, List.length_drop]; omega
+    · exact h2
+  · exact h2
+
+theorem scanBuf_step1_len (data : Bytes) :
+    (if data.head? = some 92 ∧ (data.drop 1).head? = some 120 then
+      (match hexDecode (data.drop 2) with
+       | some d => (d, d ++ data.drop d.length)
+       | none => (data, data))
+     else (data, data)).1.length ≤ data.length ∧
+    (if data.head? = some 92 ∧ (data.drop 1).head? = some 120 then
+      (match hexDecode (data.drop 2) with
+       | some d => (d, d ++ data.drop d.length)
+       | none => (data, data))
+     else (data, data)).2.length = data.length := by
+  split
+  · split
+    · rename_i d hd
+      have := hexDecode_len _ _ hd
+      simp only [List.length_drop] at this
+      simp only [List.length_append, List.length_drop]; omega
+    · simp
+  · simp
+
+theorem scanBuf_length (data : Bytes) : (scanBuf data).length = data.length := by
+  unfold scanBuf
+  split
+  · rfl
+  · exact scanBuf_step2_len _ _ (scanBuf_step1_len data).1 (scanBuf_step1_len data).2
+
 end helpers
 
 theorem unmarshal_total' (bs : Bytes) : (unmarshal bs).isPanic = false := by
@@ -328,14 +380,87 @@ theorem wkbScan_total' (bnd : BoundFn) (d : Dest) (bs : Bytes) : (wkbScan bnd d 
         exact (np_absurd heq (scan_np _ _ _)).elim
     · rfl
     · rename_i heq
-      exact (np_absurd heq (sliceFrom_np_of_le (by omega))).elim
+      exact (np_absurd heq (sliceFrom_np_of_le (by rw [scanBuf_length]; omega))).elim
   · rfl
   · rename_i heq
     exact (np_absurd heq (scan_np _ _ _)).elim
 
 theorem unmarshal_size_le' (bs : Bytes) (g : G) (s : Nat) (h : unmarshal bs = .ok (g, s)) :
     16 * pointCount g ≤ bs.length := by
-  sorry
+  unfold unmarshal at h
+  split at h
+  · rename_i o typ srid' gd hb
+    have hl := unmarshalBOT_len hb
+    simp only [] at h
+    split at h
+    · -- point
+      split at h
+      · rename_i hm
+        injection h with h; injection h with h h'; subst h; subst h'
+        have := unmarshalPoint_len hm
+        simp only [pointCount]; omega
+      all_goals contradiction
+    · split at h
+      · -- multiPoint
+        split at h
+        · rename_i hm
+          injection h with h; injection h with h h'; subst h; subst h'
+          have h1 := unmarshalMultiF_len _ _ _ _ _ _ _ _ hm
+          have h2 := sum_map_le16 (fun _ => 1) (fun _ : Pt UInt64 => 21) ‹_› (fun _ => by simp)
+          rw [sum_map_one] at h2
+          simp only [pointCount]; omega
+        all_goals contradiction
+      · split at h
+        · -- lineString
+          split at h
+          · rename_i hm
+            injection h with h; injection h with h h'; subst h; subst h'
+            have := unmarshalPoints_len hm
+            simp only [pointCount]; omega
+          all_goals contradiction
+        · split at h
+          · -- multiLineString
+            split at h
+            · rename_i hm
+              injection h with h; injection h with h h'; subst h; subst h'
+              have h1 := unmarshalMultiF_len _ _ _ _ _ _ _ _ hm
+              have h2 := sum_map_le16 List.length (fun ls : List (Pt UInt64) => 16 * ls.length + 9) ‹_›
+                (fun _ => by omega)
+              simp only [pointCount]; omega
+            all_goals contradiction
+          · split at h
+            · -- polygon
+              split at h
+              · rename_i hm
+                injection h with h; injection h with h h'; subst h; subst h'
+                have h1 := unmarshalPolygon_len hm
+                have h2 := sum_map_le16 List.length (fun r : List (Pt UInt64) => 4 + 16 * r.length) ‹_›
+                  (fun _ => by omega)
+                unfold polyStride at h1
+                simp only [pointCount]; omega
+              all_goals contradiction
+            · split at h
+              · -- multiPolygon
+                split at h
+                · rename_i hm
+                  injection h with h; injection h with h h'; subst h; subst h'
+                  have h1 := unmarshalMultiF_len _ _ _ _ _ _ _ _ hm
+                  have h2 := sum_map_le16 (fun p : List (List (Pt UInt64)) => (p.map List.length).sum)
+                    polyStride ‹_› (fun p => by
+                      have := sum_map_le16 List.length (fun r : List (Pt UInt64) => 4 + 16 * r.length) p
+                        (fun _ => by omega)
+                      unfold polyStride; omega)
+                  simp only [pointCount]; omega
+                all_goals contradiction
+              · split at h
+                · -- collection
+                  split at h
+                  · rename_i hd
+                    injection h with h; injection h with h h'; subst h; subst h'
+                    exact decode_size_le_aux hd
+                  all_goals contradiction
+                · contradiction
+  all_goals contradiction
 
 theorem decode_size_le' (bs : Bytes) (g : G) (s : Nat) (h : decode bs = .ok (g, s)) :
     16 * pointCount g ≤ bs.length := by
